@@ -5,7 +5,7 @@ from vx.rs import Fn, LostAnchor, mask, match_close
 from .common import emit_method, guarded
 
 NAME = 'u19_sourceview'
-PROPS = ['C15', 'C05']
+PROPS = ['C15', 'C05', 'C18']
 S = 'src/sourceview.rs'
 
 MUTANTS = [
@@ -138,3 +138,22 @@ def build(u):
     # R-trait-inherent: Iterator::next of Lines as an inherent method (no clauses of its own on an impl of an external trait)
     guarded(u, 'sourceview::Lines::next', lambda: u.get_fn(S, 'next', impl=r"<'a> Iterator for Lines<'a>"), lambda f: u.count('R-trait-inherent'),
             wrap=lambda: ("impl<'a> Lines<'a> {", '}'))
+
+    # reference discovery through a view: the slice locator (proved in U18) on the bytes of the text
+    from .common import emit_error_enum
+    D = 'src/detector.rs'
+    u.prelude('common.rs')
+    u.prelude('shim_str.rs')
+    emit_error_enum(u)
+    text, origin = u.get_item_text(D, r'(?m)^pub enum SourceMapRef\b', 'enum SourceMapRef')
+    text = re.sub(r'(?m)^#\[derive\([^\]]*\)\]\n', '', text)
+    text = re.sub(r'(?m)^\s*//[/!][^\n]*\n', '', text)
+    u.count('R-derive')
+    u.emit_text('detector::SourceMapRef', text, origin)
+    u.use('use std::io::Read;')
+    u.prelude('io_read.rs')
+    u.prelude('shim_lines.rs')
+    u.spec('detect.rs')
+    u.import_fn(u.get_fn(D, 'locate_sourcemap_reference_slice'), 'detector::locate_sourcemap_reference_slice', 'u18_detect.ctr', 'u18_detect')
+    emit_method(u, S, r'SourceView\b', 'sourcemap_reference', 'sourceview::SourceView::sourcemap_reference',
+                prep=lambda f: u.count('R-shim-call', f.rewrite(r'\bself\.source\.as_bytes\(\)', 'verif_arc_as_bytes(&self.source)', expect=1)))
